@@ -251,6 +251,13 @@ class Exchange:
         return int(self.sim.now * 1000)
 
     def emit(self, bets, full_image=False, ct=None):
+        if not full_image and ct is None and len(bets) > 1 and self.sim.scenario.get("split_ocm"):
+            # the order stream reports each bet in a message of its own (nothing promises that the bets of one request
+            # arrive together): the scheduler may run other things between the messages
+            self.sim.res.faults["order_stream.one_message_per_bet"] += 1
+            for b in bets:
+                self.emit([b])
+            return
         by = {}
         for b in bets:
             by.setdefault(b["market_id"], {}).setdefault((b["selection_id"], b["handicap"]), []).append(self._uo(b))
@@ -782,6 +789,7 @@ class LiveRun:
         self.log = []
         self.quiescent_checks = 0
         self.in_main = False
+        self.main_thread = None
         self.custom_calls = []
 
     # ---- API shared with backtest monitors
@@ -833,6 +841,23 @@ class LiveRun:
         else:
             self.waiting.append(t)
             self.res.probes["live.pool_exhausted_task_queued"] += 1
+            return
+        # pre-emption of the submitting thread: a pool thread may start - and even finish its round trip - before
+        # submit() returns to the main loop (thread start hands over the GIL; nothing orders the two). Decided by the
+        # scenario alone (knob preempt_pct and the tape), so a replay takes the same decisions.
+        pct = self.scenario.get("preempt_pct", 0)
+        if pct and self.current_task is None and not self.aborting and threading.current_thread() is self.main_thread:
+            k = self.tape[(self.n_tasks * 7 + 3) % len(self.tape)] if self.tape else 0
+            if k % 100 < pct:
+                upto = (1, 2, 99, 99)[(k // 100) % 4]  # until the request left / the exchange applied it / the reply was processed
+                self.res.faults["schedule.pool_thread_runs_inside_submit"] += 1
+                self.log.append(("preempt", self.n_tasks, upto))
+                n = 0
+                while t.state != "done" and n < upto and t in self.tasks:
+                    self.resume(t)
+                    n += 1
+                if t.state == "done":
+                    self.res.faults["schedule.reply_processed_before_submit_returned"] += 1
 
     def resume(self, task):
         self.current_task = task
@@ -1282,6 +1307,7 @@ class LiveRun:
                 if self._track_update not in self.hooks["main_event"]:
                     self.hooks["main_event"].insert(0, self._track_update)
                 try:
+                    self.main_thread = threading.current_thread()
                     self.fw.run()
                 except core.SimulationAbort:
                     raise
